@@ -165,6 +165,9 @@ func NewFilterFS(fs FS, opt *FilterOpt) (FS, error) {
 }
 
 func (fs *filterFS) Open(p string) (io.ReadCloser, error) {
+	// match the path the way the walk reports it: the FS below resolves
+	// "./x", "/x" or "y/../x" to x, which may be hidden
+	p = strings.TrimPrefix(filepath.Clean(string(filepath.Separator)+p), string(filepath.Separator))
 	if fs.includeMatcher != nil {
 		m, err := fs.includeMatcher.MatchesOrParentMatches(p)
 		if err != nil {
